@@ -465,7 +465,7 @@ def make_suggest(shape):
         cache_entries = []
         base_items = {}
         if word is not None:
-            for i in range(1, wlen):
+            for i in range(1, shape.get("pair_base", wlen)):
                 items = []
                 for j in range(shape.get("prefix_items", 1)):
                     kind = shape.get("prefix_kind", "Other")
@@ -475,6 +475,11 @@ def make_suggest(shape):
                 base_items[i] = items
                 cache_entries.append([tuple(word[:i]), SVec(items)])
         cache = SMap("cache", cache_entries)
+        if shape.get("memo_extra"):
+            # a context that has composed any number of other words: the memo holds that many entries this run never names
+            others = st.sym_bv("memo_other_entries", 64)
+            st.assume(z3.ULT(others, 1 << 32))
+            cache.extra = others
         stale = [mk_rank(prog, "Other", orc.sym_string("stale", 1, 0x20, 0x9FF), st.sym_bv(orc.fresh("staled"), 8))] if shape.get("stale_scratch", True) else []
         ps = mk_phonetic_suggestion(prog, stale, cache=cache, user_autocorrect=SMap("user_autocorrect", [], user_ac_oracle(orc, shape)),
                                     pbuffer=orc.sym_string("pbuf", 1, 0x20, 0x9FF) if shape.get("stale_scratch", True) else ())
@@ -482,9 +487,22 @@ def make_suggest(shape):
         fixed.update(shape.get("fixed", {}))
         cfg, opts = mk_config(prog, st, fixed)
 
+        def learned_value(c):
+            if shape.get("learned_kind") == "anything_once_offered" and word is not None:
+                # what an earlier commit (possibly under other options) can have stored for this word: a Bengali candidate, the first emoji
+                # of the word's name, or the raw typed word
+                em = orc.memo.get(("emoji_name", key_of_elems(word)))
+                alts = ["bengali", "raw"] + (["emoji"] if em else [])
+                n = orc.fresh("learned_kind")
+                k = st.choose([z3.Int(n) == i for i in range(len(alts))])
+                if alts[k] == "raw":
+                    return list(word)
+                if alts[k] == "emoji":
+                    return list(em[0])
+            return orc.sym_string("learned", shape.get("learned_len", 1), BENGALI_LO, 0x09DF)
+
         def sel_oracle(it2, m, key):
-            v = orc.lookup("selection", key, lambda c: orc.sym_string("learned", shape.get("learned_len", 1), BENGALI_LO, 0x09DF),
-                           allow=shape.get("selections", True))
+            v = orc.lookup("selection", key, learned_value, allow=shape.get("selections", True))
             return SString(v) if v is not None else None
         selections = SMap("selections", [], sel_oracle)
         ctx.update(word=word, term=term, ps=ps, cfg=cfg, opts=opts, selections=selections, base_items=base_items, cache=cache, pre=pre, trail=trail)
@@ -498,6 +516,10 @@ def make_suggest(shape):
 
         def run():
             res = {}
+            if mode == "suffix_pair":
+                # the base alone first (what it is offered is what must come back joined), then the whole word on the same object
+                b0 = run_suggest(it, st, ctx, ps, list(word[:shape["pair_base"]]), selections, cfg)
+                res["base_list"] = [deep_copy(x) for x in b0[0].items]
             res["first"] = run_suggest(it, st, ctx, ps, term, selections, cfg)
             res["first_list"] = [deep_copy(x) for x in res["first"][0].items]
             if mode == "quote_pair":
@@ -515,7 +537,9 @@ def make_suggest(shape):
                 # at its initial value), with the memo a new context has after typing this text key by key
                 try:
                     ps3 = it.call_function(prog.find_fn("PhoneticSuggestion", "new"), [ps_field(prog, ps, "user_autocorrect")])
-                    ps3.fields[prog.structs["PhoneticSuggestion"].index("cache")] = deep_copy(cache0)
+                    c3 = deep_copy(cache0)
+                    c3.extra = None            # the new context has composed nothing else
+                    ps3.fields[prog.structs["PhoneticSuggestion"].index("cache")] = c3
                     res["pristine"] = run_suggest(it, st, ctx, ps3, term, selections, cfg)
                 except Unsupported as ex:
                     ctx["pristine_refused"] = str(ex)
@@ -772,6 +796,21 @@ def suggest_clauses(st, it, c, res, mode):
             if alts:
                 carry.append(z3.Implies(z3.Or([m_ for m_, _ in alts]), z3.Or([z3.And(m_, e_) for m_, e_ in alts])))
         clauses.append(("dictionary_candidates_carry_their_distance", z3.And(carry) if carry else True))
+    # ---- C08, as the property words it: every direct candidate OFFERED for the base alone comes back joined when base + known suffix is typed
+    if mode == "suffix_pair" and word is not None:
+        b = shape["pair_base"]
+        sfx = orc.memo.get(("suffix", key_of_elems(word[b:])))
+        back = []
+        if sfx is not None and len(sfx) > 0:
+            for x in res["base_list"]:
+                if cls(x) not in (V["First"], V["Other"]) or len(rank_text(x)) == 0:
+                    continue
+                silent, cases = ref_join(rank_text(x), sfx)
+                for cond, joined in cases:
+                    won, woff = qpre_on + joined + qtrail_on, cpre + joined + ctrail
+                    back.append(z3.Implies(z3.And(z3.Not(silent), cond), z3.If(quote, texts_equal_any(texts, won), texts_equal_any(texts, woff))))
+                clauses.append(("cover:base_then_suffix", z3.Not(silent)))
+        clauses.append(("candidates_of_the_base_come_back_joined", z3.And(back) if back else True))
     # ---- C05/C08: the memo entry written for the word holds its direct candidates only (what the suffix joining of longer words relies on)
     if word is not None and len(word) > 0 and mode == "single":
         def same_key(k1, k2):
@@ -834,6 +873,13 @@ def suggest_clauses(st, it, c, res, mode):
         emo2 = [i for i, x in enumerate(lst2.items) if cls(x) == V["Emoji"]]
         raw2 = [i for i, x in enumerate(lst2.items) if cls(x) == V["Last"] and not is_sym(num(x)) and num(x) in (1, 3)]
         clauses.append(("ansi_offers_no_emoji_or_raw_text", z3.Implies(ansi2, z3.BoolVal(len(emo2) == 0 and len(raw2) == 0))))
+        # ... whatever class the item carries: no candidate IS an emoji of the word's name or the raw typed word
+        if word is not None and len(word) > 0:
+            banned = [list(e) for e in (orc.memo.get(("emoji_name", key_of_elems(word))) or [])]
+            cw = orc.memo.get(("conv", key_of_elems(word)))
+            raw_differs = z3.Not(seq_eq(list(cw), list(word))) if cw is not None and len(cw) == len(word) else z3.BoolVal(True)
+            hits = [texts_equal_any(t2, cpre + b + ctrail) for b in banned] + [z3.And(raw_differs, texts_equal_any(t2, list(term)))]
+            clauses.append(("ansi_offers_nothing_it_cannot_encode", z3.Implies(ansi2, z3.Not(z3.Or(hits)))))
         clauses.append(("cover:reconfigured", True))
     # ---- C17 / C05 pairing
     if mode in ("quote_pair", "warm_pair"):
@@ -1227,6 +1273,16 @@ def warm_search(vs):
     return None
 
 
+def warm_or_long_history_search(vs):
+    found = warm_search(vs)
+    if found is None:
+        import obl_phonetic
+        f2 = obl_phonetic.memo_eviction_search()
+        if f2 is not None:
+            found = (f2[0], f2[1], f2[2], "suggestions depend on how many words the context composed before")
+    return found
+
+
 def autocorrect_search(vs):
     """Re-find 'the auto-correct entry is not first' natively with a user auto-correct file (identity, overriding and plain entries)."""
     keys = char_keys()
@@ -1303,7 +1359,8 @@ def obl_order(check, conv_table, thorough=False, budget_s=None):
                                           options="English, ANSI, smart quotes symbolic")
     run_suggest_obligation(check, "assembly_order", shapes, ["cover:transliteration", "cover:emoticon", "cover:emoji_name", "cover:autocorrect_first"],
                            confirmers={"autocorrect_entry_is_first": autocorrect_search, "no_candidate_twice": duplicate_search,
-                                       "dictionary_candidates_carry_their_distance": suffix_rank_search}, budget_s=budget_s)
+                                       "dictionary_candidates_carry_their_distance": suffix_rank_search,
+                                       "memo_entry_is_keyed_by_the_word": warm_search, "memo_entry_holds_direct_candidates_only": stacked_suffix_search}, budget_s=budget_s)
 
 
 def join_concrete(base, sfx):
@@ -1336,6 +1393,17 @@ def suffix_search(vs):
             steps = [{"op": "new", "config": cfg}] + [{"op": "key", "key": keys[ch], "sel": 0} for ch in b2 + sk] + [{"op": "get_state"}]
             scs.append({"steps": steps})
             meta.append((b2, sk, sv))
+    # bases that have a user auto-correct entry (one of them overriding a bundled entry): what is offered for the base alone must come back joined
+    user_ac = {"bd": "bangladesh", "atm": "oTOmeTik", "xq": "kotha"}
+    ucfg = dict(cfg)
+    for b2 in user_ac:
+        steps0 = [{"op": "write_user_file", "name": "autocorrect.json", "content": json.dumps(user_ac)}, {"op": "new", "config": ucfg}] + [{"op": "key", "key": keys[ch], "sel": 0} for ch in b2]
+        for sk, sv in list(data["suffix"].items())[:60]:
+            if any(ch not in keys for ch in sk):
+                continue
+            steps = list(steps0) + [{"op": "get_state", "_base": True}] + [{"op": "key", "key": keys[ch], "sel": 0} for ch in sk] + [{"op": "get_state"}]
+            scs.append({"steps": steps})
+            meta.append((b2, sk, sv))
     res = run_replay_parallel(scs, timeout=1800)
     for (b2, sk, sv), sc, r in zip(meta, scs, res):
         rr = r["results"]
@@ -1343,6 +1411,16 @@ def suffix_search(vs):
         if "panic" in last:
             return sc, last, "typing %r panics: %s" % (b2 + sk, last["panic"]), None
         lst = last.get("suggestion", {}).get("list", [])
+        if b2 in user_ac:
+            # the list shown for the base alone: its First / Other candidates
+            bi = [i for i, stp in enumerate(sc["steps"]) if stp.get("_base")][0]
+            shown = [(k, t) for k, t, n in rr[bi].get("state", {}).get("suggestions", []) if k in (0, 2)]
+            for kind, text in shown:
+                j = join_concrete(text, sv) if text else None
+                if j is not None and j not in lst:
+                    return sc, last, ("user auto-correct file %s: %r alone is offered %r; typed on as %r (suffix %r = %r) the joined form %r is not offered; list %s" % (
+                        json.dumps(user_ac), b2, text, b2 + sk, sk, sv, j, lst[:8])), "a candidate offered for the base alone does not come back joined"
+            continue
         direct = rr[-1]["state"]["cache"].get(b2, [])
         for kind, text, n in direct:
             if not text:
@@ -1396,12 +1474,17 @@ def obl_suffix(check, conv_table, thorough=False, budget_s=None):
     shapes += base_shapes([("", "")], [3], conv_table, **dict(kw, prefix_kind="First", fixed={"include_english": False, "ansi": False, "smart_quote": False}))
     if thorough:
         shapes += base_shapes([("", "")], [3], conv_table, **dict(kw, distinct=False, fixed={"include_english": False, "ansi": False, "smart_quote": False}))
+    # the base typed first (its list computed by the code from the oracles: dictionary word, bundled / user auto-correct entry), then the suffix
+    for ac, uac, dm in ((True, False, 1), (False, True, 1), (True, True, 0)):
+        shapes += base_shapes([("", "")], [3] + ([4] if thorough and dm else []), conv_table, **dict(kw, mode="suffix_pair", pair_base=2, autocorrect=ac, user_autocorrect=uac, dict_max=dm,
+                                                                                                   fixed={"include_english": False, "ansi": False, "smart_quote": False}))
     check.bounds["assembly_suffix"] = dict(word="3%s symbolic letters/digits: every split point, suffix known or not" % (" or 4" if thorough else ""),
                                            memo="every proper prefix holds one candidate (dictionary word or auto-correct entry) of 1 symbolic Bengali-block code point",
                                            suffix_value="1 symbolic Bengali-block code point", wrappers=["W", "\"W\""])
     run_suggest_obligation(check, "assembly_suffix", shapes, ["cover:suffix_join"], budget_s=budget_s,
                            confirmers={"suffix_forms_complete": suffix_search, "memo_entry_holds_direct_candidates_only": stacked_suffix_search,
-                                       "memo_entry_is_keyed_by_the_word": warm_search, "dictionary_candidates_carry_their_distance": suffix_rank_search})
+                                       "memo_entry_is_keyed_by_the_word": warm_search, "dictionary_candidates_carry_their_distance": suffix_rank_search,
+                                       "candidates_of_the_base_come_back_joined": suffix_search})
 
 
 def emoji_search(vs):
@@ -1551,6 +1634,34 @@ def reconfig_search(vs):
     def cfg(o):
         return {"layout": "avro_phonetic", "database": REPO + "/data", "opts": dict(o, phonetic_suggestion=True)}
     scs, meta = [], []
+    # choices learned under the first option set (an emoji, the raw text, a Bengali candidate), then ANSI switched on: nothing that cannot be encoded is offered
+    tables = run_replay([{"steps": [{"op": "emoji_tables"}]}])[0]["results"][0]
+    all_emoji = set(e for v in tables.get("names", {}).values() for e in v) | set(tables.get("emoticons", {}).values())
+    lsc, lmeta = [], []
+    for w in ("cool", "smile", "atm", "ami"):
+        for idx in (0, 1, 2, -1):
+            a = {"ansi": False, "english": True, "smart_quote": True}
+            b = {"ansi": True, "english": True, "smart_quote": True}
+            steps = [{"op": "new", "ctx": 0, "config": cfg(a)}] + [{"op": "key", "ctx": 0, "key": keys[ch], "sel": 0} for ch in w]
+            lsc.append((steps, w, idx, a, b))
+    first = run_replay_parallel([{"steps": x[0]} for x in lsc])
+    l2 = []
+    for (steps, w, idx, a, b), r in zip(lsc, first):
+        lst = r["results"][-1].get("suggestion", {}).get("list", [])
+        i = idx if idx >= 0 else len(lst) - 1
+        if not lst or i >= len(lst) or i < 0:
+            continue
+        st2 = steps + [{"op": "commit", "ctx": 0, "index": i}, {"op": "update", "ctx": 0, "config": cfg(b)}] + [{"op": "key", "ctx": 0, "key": keys[ch], "sel": 0} for ch in w]
+        l2.append(({"steps": st2}, w, i, lst[i]))
+    for (sc, w, i, cand), r in zip(l2, run_replay_parallel([x[0] for x in l2])):
+        rr = r["results"]
+        if any("panic" in x for x in rr):
+            continue
+        got = rr[-1].get("suggestion", {})
+        bad = [t for t in got.get("list", []) if t in all_emoji or t == w]
+        if bad:
+            return sc, rr[-1], ("%r typed with ANSI off, candidate %d (%r) committed, ANSI switched on by update_engine (idle, same layout), %r typed again: the list %s offers %r, "
+                                "which cannot be encoded" % (w, i, cand, w, got.get("list"), bad[0])), "ANSI mode offers an emoji or the raw text"
     for a in sets:
         for b in sets:
             if a == b:
@@ -1597,6 +1708,9 @@ def obl_reconfig(check, conv_table, thorough=False, budget_s=None):
         shapes += base_shapes([("", "")], [3], conv_table, **dict(kw, suffixes=True, emoji_names=False, emoticons=False,
                                                                fixed={"ansi": ansi1, "include_english": False, "smart_quote": False}, fixed2={"include_english": False, "smart_quote": False}))
         shapes += special_term_shapes(SPECIAL_TERMS[:3], **dict(kw, fixed={"ansi": ansi1, "include_english": False, "smart_quote": False}, fixed2={"include_english": False, "smart_quote": False}))
+    # a choice learned earlier (under whatever options were in force then) for the word: a Bengali candidate, an emoji, the raw text
+    shapes += base_shapes([("", "")], [1], conv_table, **dict(kw, emoticons=False, selections=True, learned_kind="anything_once_offered", preconsult_emoji=True,
+                                                           fixed={"ansi": False, "include_english": True, "smart_quote": False}, fixed2={"smart_quote": False}))
     for sq1 in (False, True):
         shapes += base_shapes([("\"", "\"")], [1], conv_table, **dict(kw, emoji_names=False, emoticons=False, selections=True,
                                                                      fixed={"ansi": False, "include_english": False, "smart_quote": sq1}, fixed2={"ansi": False, "include_english": False}))
@@ -1605,7 +1719,7 @@ def obl_reconfig(check, conv_table, thorough=False, budget_s=None):
                                            data="0-1 dictionary word, emoji name / emoticon / learned selection present or absent")
     run_suggest_obligation(check, "reconfiguration", shapes, ["cover:reconfigured"], budget_s=budget_s,
                            confirmers={"reconfigured_context_gives_the_list_of_a_new_one": reconfig_search, "reconfigured_context_gives_the_preselection_of_a_new_one": reconfig_search,
-                                       "ansi_offers_no_emoji_or_raw_text": reconfig_search})
+                                       "ansi_offers_no_emoji_or_raw_text": reconfig_search, "ansi_offers_nothing_it_cannot_encode": reconfig_search})
 
 
 def obl_warm(check, conv_table, thorough=False, budget_s=None):
@@ -1614,6 +1728,8 @@ def obl_warm(check, conv_table, thorough=False, budget_s=None):
     shapes = base_shapes([("", "")], [1, 2], conv_table, **kw)
     shapes += base_shapes([("", "")], [3], conv_table, **dict(kw, selections=thorough, autocorrect=thorough, user_autocorrect=True))
     shapes += base_shapes([("\"", "")], [1], conv_table, **dict(kw, fixed={"ansi": False, "include_english": False}))
+    # a context with any number of earlier words in its memo against a new one (a word with suffix split points and a plain one)
+    shapes += base_shapes([("", "")], [1, 3], conv_table, **dict(kw, selections=False, memo_extra=True))
     # single runs: what the call leaves in the memo (one entry, under the word exactly as typed, holding its direct candidates)
     single = dict(kw, mode="single", autocorrect=True, user_autocorrect=True, suffixes=True, selections=False)
     shapes += base_shapes([("", ""), ("\"", "\"")], [1, 2], conv_table, **single)
@@ -1623,8 +1739,8 @@ def obl_warm(check, conv_table, thorough=False, budget_s=None):
     run_suggest_obligation(check, "memo_transparency", shapes, ["cover:warm"], budget_s=budget_s,
                            confirmers={"memo_entry_holds_direct_candidates_only": stacked_suffix_search, "warm_context_gives_the_same_list": warm_search,
                                        "memo_entry_is_keyed_by_the_word": warm_search,
-                                       "context_with_history_gives_the_list_of_a_new_one": warm_search,
-                                       "context_with_history_gives_the_preselection_of_a_new_one": warm_search,
+                                       "context_with_history_gives_the_list_of_a_new_one": warm_or_long_history_search,
+                                       "context_with_history_gives_the_preselection_of_a_new_one": warm_or_long_history_search,
                                        "warm_context_gives_the_same_preselection": warm_search})
 
 
